@@ -22,6 +22,8 @@ def _ctl_groups(q, t, extra=None):
         dict(name="wide", harness="ctl", weight=2, runs=dict(quick=q // 2, thorough=t // 2), opts=dict(reorder=True, swap=False, nmax=40, hmax=6, wmax=4)),
         # two events of one host swapped on delivery: what a lost frame and its retransmission do to the order
         dict(name="swap", harness="ctl", weight=1, runs=dict(quick=q // 4, thorough=t // 4), opts=dict(reorder=True, swap=True)),
+        # the judged run is the second run() with one precompute() result (initialize() must leave the Preschedule as it found it)
+        dict(name="rerun", harness="ctl", weight=1, runs=dict(quick=q // 4, thorough=t // 4), opts=dict(reorder=True, swap=False, rerun=100)),
     ]
     return gs + (extra or [])
 
@@ -40,6 +42,7 @@ PROPS["C01"] = dict(
     groups=[
         dict(name="exec", harness="ctl", weight=3, runs=dict(quick=12000, thorough=200000), opts=dict(reorder=True, swap=False, exec_pct=100)),
         dict(name="exec-wide", harness="ctl", weight=2, runs=dict(quick=4000, thorough=80000), opts=dict(reorder=True, swap=False, exec_pct=100, nmax=30, hmax=6, wmax=4)),
+        dict(name="exec-rerun", harness="ctl", weight=1, runs=dict(quick=3000, thorough=50000), opts=dict(reorder=True, swap=False, exec_pct=100, rerun=100)),
     ],
     rule="run = (job DAG, cluster shape, requested outputs, delivery schedule) from the seed, task bodies really executed through runner.run; "
          "distinct = distinct SHA-256 of the Bridge command/event log; non-trivial = >=2 tasks, >=1 requested output and >=1 inter-host transfer or fetch",
